@@ -72,6 +72,9 @@ pub enum ReadEv {
     /// `Ok(0)` although data is left (a file that is still being written, an empty chunk):
     /// outside the model's source contract, used by the `F` cases only
     Zero,
+    /// fails now and at every later call (a broken pipe stays broken, a silent non-blocking descriptor keeps saying
+    /// `WouldBlock`); only built by the parallel cases' failing source, never written into a case line
+    Sticky(usize),
 }
 
 /// error kinds by code (shared with the model as plain numbers)
@@ -136,6 +139,10 @@ impl Read for ScriptedReader {
             Some(ReadEv::Intr) => return Err(io::Error::new(io::ErrorKind::Interrupted, "interrupted")),
             Some(ReadEv::Fail(k)) => return Err(io::Error::new(KINDS[k % KINDS.len()], "injected")),
             Some(ReadEv::Zero) => return Ok(0),
+            Some(ReadEv::Sticky(k)) => {
+                self.script.push_front(ReadEv::Sticky(k));
+                return Err(io::Error::new(KINDS[k % KINDS.len()], "injected"));
+            }
             None => {
                 let lim = if self.chunk == 0 { space } else { self.chunk.min(space) };
                 lim.min(remaining)
